@@ -77,9 +77,17 @@ def pub_pem(name):
         out = subprocess.run(["openssl", "x509", "-pubkey", "-noout", "-in",
                               sc.cert_pem(name)], capture_output=True,
                              timeout=30).stdout
-        fd, path = tempfile.mkstemp(prefix="c10pub", suffix=".pem")
-        os.write(fd, out)
-        os.close(fd)
+        # one file per key (named by content) shared by all shards and runs,
+        # recreated on demand: nothing accumulates in the temp directory
+        d = os.path.join(tempfile.gettempdir(), "verif-c10-%d" % os.getuid())
+        os.makedirs(d, exist_ok=True)
+        path = os.path.join(d, "%s-%s.pem" % (
+            name, hashlib.sha256(out).hexdigest()[:16]))
+        if not os.path.exists(path):
+            fd, tmp = tempfile.mkstemp(dir=d)
+            os.write(fd, out)
+            os.close(fd)
+            os.rename(tmp, path)
         _pub[name] = path
     return _pub[name]
 
